@@ -521,7 +521,9 @@ def master(tier, seed):
         "seeds": {"VERIF_SEED": seed, "run_indices": "0..%d" % max(0, runs - 1)},
         "simulated_time": "not applicable: no clock or timer in the system; logical operations are reported",
         "real_components": ["child interpreter processes", "pyab_experiment", "pydantic", "hashlib"],
-        "stubbed_components": ["none in the system under test; the 'network' is a synchronous pipe owned by the simulator"],
+        "stubbed_components": ["none in the package; the 'network' is a synchronous pipe owned by the simulator",
+                               "per-node entropy sources (os.urandom, random seed, time.time / monotonic, os.getpid) fed from the scenario",
+                               "per-node disk: private initially empty HOME / TMPDIR / XDG_* that survives the node's crash-restarts"],
         "workers": common.n_workers(),
     }
     common.write_evidence(PROP, tier, seed, cov, wall, len(paths),
